@@ -113,6 +113,8 @@ def setitem_invalidation(ctx, keys=None, why=""):
                     if not a.pol or not isinstance(a.node, ast.Call):
                         continue
                     ok, missing = _differ_call(a.node, fitm, valv)
+                    if not ok and not missing:
+                        ok, missing = _differ_any(a.node, valv)
                     if ok:
                         eq_edges.add((n.id, lab))
                     elif missing:
@@ -246,6 +248,34 @@ def _differ_call(call, fitm, valv):
                 if missing:
                     return False, missing
     return False, None
+
+
+def _differ_any(call, valv):
+    """any(<state of stored p> != <state of new p> for p in stored)"""
+    if call_name(call) != "any" or len(call.args) != 1 or not isinstance(
+            call.args[0], (ast.GeneratorExp, ast.ListComp)):
+        return False, None
+    ge = call.args[0]
+    if len(ge.generators) != 1 or ge.generators[0].ifs:
+        return False, None
+    g = ge.generators[0]
+    if "params_initial" not in norm(g.iter):
+        return False, None
+    e = ge.elt
+    if not (isinstance(e, ast.Compare) and len(e.ops) == 1 and isinstance(
+            e.ops[0], ast.NotEq)):
+        return False, None
+    sides = [e.left, e.comparators[0]]
+    kinds = [_state_kind(x) for x in sides]
+    if all(k == "full" for k in kinds):
+        stored = any("self['params_initial']" in norm(x) for x in sides)
+        new = any(norm(x).startswith(f"{valv}[") for x in sides)
+        return (stored and new), None
+    missing = set()
+    for k in kinds:
+        if isinstance(k, set):
+            missing |= k
+    return False, (missing or None)
 
 
 def _full_state_loop(loop: ast.For, valv, fn=None):
